@@ -2,6 +2,7 @@ package scen
 
 import (
 	"fmt"
+	"strings"
 	"time"
 
 	erpc "github.com/henrylee2cn/erpc/v6"
@@ -17,6 +18,7 @@ func init() {
 	Sched["c18_hist"] = c18Hist
 	Sched["c18_race"] = c18Race
 	Sched["c18_qps"] = c18QPS
+	Sched["c18_live"] = c18Live
 }
 
 // admitCounter sits behind the overloader in the plugin list: its PostAccept runs only for admitted connections.
@@ -232,5 +234,123 @@ func c18QPS(p Params) func() {
 			vsched.Failf("%d calls were admitted; capacity %d + refill %d x %d ticks + %d slack = %d", admitted, capacity, refill, fired, fired, bound)
 		}
 		vsched.Logf("admitted=%d fired=%d", admitted, fired)
+	}
+}
+
+// c18Live: rate limits on a live session. Every history of calls and pushes to a route with a handler limit and
+// to a route without one, and of refill ticks. Oracles: a call is reported OK exactly if its handler ran (and
+// then the result is right), otherwise it carries an error status and the handler did not run; over every
+// window of the history the number of admitted calls and pushes stays within capacity + refill + one per tick,
+// for the total limit and for the handler limit.
+func c18Live(p Params) func() {
+	depth := p.Int("depth", 5)
+	return func() {
+		begin()
+		const totalCap, handlerCap = 2, 1
+		ol := overloader.New(overloader.LimitConfig{})
+		srv := world.NewPeer("json", ol)
+		ran := map[string]int{}
+		hFree := srv.RouteCallFunc(func(ctx erpc.CallCtx, a *string) (*string, *erpc.Status) {
+			ran["free"]++
+			r := "free:" + *a
+			return &r, nil
+		})
+		hLim := srv.SubRoute("/lim").RouteCallFunc(func(ctx erpc.CallCtx, a *string) (*string, *erpc.Status) {
+			ran["lim"]++
+			r := "lim:" + *a
+			return &r, nil
+		})
+		hPush := srv.RoutePushFunc(func(ctx erpc.PushCtx, a *string) *erpc.Status {
+			ran["push"]++
+			return nil
+		})
+		// interval = 1s/cap: one token per tick for the total limit; the handler limit refills one per tick as well
+		ol.Update(overloader.LimitConfig{MaxTotalQPS: totalCap, QPSInterval: time.Second / totalCap,
+			MaxHandlerQPS: []overloader.HandlerLimit{{ServiceMethod: hLim, MaxQPS: handlerCap}}})
+		cli := world.NewPeer("json")
+		cs, _, _ := world.Connect(cli, srv, nil)
+		type ev struct {
+			tick, admitted, lim bool
+		}
+		var evs []ev
+		hist := ""
+		for i := 0; i < depth; i++ {
+			switch k := vsched.Choose(4, "op"); k {
+			case 0, 1:
+				name, method, key := "call_free", hFree, "free"
+				if k == 1 {
+					name, method, key = "call_lim", hLim, "lim"
+				}
+				hist += name + " "
+				before := ran[key]
+				var r string
+				arg := fmt.Sprint("a", i)
+				st := cs.Call(method, &arg, &r).Status()
+				vsched.Quiesce()
+				did := ran[key] - before
+				if st.OK() {
+					if did != 1 || r != key+":"+arg {
+						vsched.Failf("call reported OK but its handler ran %d times and the result is %q | %s", did, r, hist)
+					}
+				} else {
+					world.Counter("calls_rejected")
+					if did != 0 {
+						vsched.Failf("call rejected with %s but its handler ran | %s", world.StatStr(st), hist)
+					}
+					if st.Code() != erpc.CodeInternalServerError || !strings.Contains(st.Msg(), "qps overload") {
+						vsched.Failf("rejected call carries %s, want the overload error | %s", world.StatStr(st), hist)
+					}
+				}
+				evs = append(evs, ev{admitted: st.OK(), lim: k == 1})
+			case 2:
+				hist += "push "
+				before := ran["push"]
+				arg := "p"
+				if st := cs.Push(hPush, &arg); !st.OK() {
+					vsched.Failf("push failed locally: %s | %s", world.StatStr(st), hist)
+				}
+				vsched.Quiesce()
+				did := ran["push"] - before
+				if did > 1 {
+					vsched.Failf("push handled %d times | %s", did, hist)
+				}
+				if did == 0 {
+					world.Counter("pushes_dropped")
+				}
+				evs = append(evs, ev{admitted: did == 1})
+			case 3:
+				hist += "tick "
+				for _, t := range vtime.Tickers() {
+					t.Fire()
+				}
+				vsched.Quiesce()
+				evs = append(evs, ev{tick: true})
+			}
+		}
+		// every window of the history
+		for a := 0; a < len(evs); a++ {
+			ticks, tot, lim := 0, 0, 0
+			for b := a; b < len(evs); b++ {
+				switch e := evs[b]; {
+				case e.tick:
+					ticks++
+				case e.admitted:
+					tot++
+					if e.lim {
+						lim++
+					}
+				}
+				if tot > totalCap+2*ticks {
+					vsched.Failf("%d calls/pushes admitted in a window with %d refill ticks; capacity %d + 1 per tick + 1 slack per tick | window %d..%d of %s", tot, ticks, totalCap, a, b, hist)
+				}
+				if lim > handlerCap+2*ticks {
+					vsched.Failf("%d calls admitted to the limited route in a window with %d refill ticks; handler capacity %d | window %d..%d of %s", lim, ticks, handlerCap, a, b, hist)
+				}
+			}
+		}
+		if !evs[0].tick && !evs[0].admitted {
+			vsched.Failf("the first message was rejected although the bucket is full | %s", hist)
+		}
+		vsched.Logf("%s", hist)
 	}
 }
